@@ -1,6 +1,6 @@
 (* C05 - override, bump and reset semantics follow the precedence order.
    Model: Model/Bump.v (bump/*.rs) + Model/Cli.v (argument resolution, context overrides, zerv_draft). *)
-From ZV Require Import Str Zerv Bump Cli BumpProofs.
+From ZV Require Import Str Zerv Bump Cli BumpProofs CtxFrame.
 
 (* the engine IS a single pass over the precedence order, override-then-bump per level (by definition of the model;
    stated so that a change of shape is visible) *)
@@ -54,9 +54,14 @@ Example c05_ex :
   = Some (Some 1, Some 3, Some 0, None, None).
 Proof. vm_compute. reflexivity. Qed.
 
+(* no override, bump or reset - by name or by schema index - ever changes a VCS-derived field or the custom values *)
+Theorem c05_context_untouched : forall a z z', apply_component_processing a z = Some z' -> ctxv (z_vars z') = ctxv (z_vars z).
+Proof. exact processing_keeps_context. Qed.
+
 Print Assumptions c05_is_level_fold.
 Print Assumptions c05_reset_frame.
 Print Assumptions c05_no_higher_level_changes.
 Print Assumptions c05_override_local.
 Print Assumptions c05_reset_effect.
 Print Assumptions c05_numeric_levels.
+Print Assumptions c05_context_untouched.
